@@ -222,6 +222,176 @@ def rule_limits(ck, facts):
             ck.bad(R, key, "%s handles lists of types up to length %d (`len %s`) while the type checker (%s, `len %s`) accepts up to %d: a program at the boundary is accepted by the type checker and then not handled by the generator" % (m[1].short, m[2], m[4], t[1].short.split("::")[-1], t[4], t[2]), m[3])
 
 
+def _w_seq(facts, f):
+    """the straight-line sequence of wasm instructions a generator helper emits: [(variant, operand exprs, term)]"""
+    from ..symex import PathLimit, SymEx
+    sx = SymEx(f, max_paths=4, facts=facts)
+    try:
+        paths = [p for p in sx.run(0) if p.end == "return"]
+    except PathLimit:
+        return None
+    if len(paths) != 1:
+        return None
+    seq = []
+    for e in paths[0].events:
+        if e[0] == "call" and e[1].endswith("Function::instruction") and len(e[2]) >= 2:
+            x = e[2][1]
+            while isinstance(x, tuple) and x and x[0] in ("ref", "deref"):
+                x = x[1]
+            if not (x[0] == "agg" and "Instruction::" in x[1]):
+                return None
+            seq.append((x[1].rsplit("::", 1)[1], x[2], e[3]))
+    return seq
+
+
+def _ev(e, env):
+    """evaluate a template expression over u32 with the leaves bound in env"""
+    M = 0xFFFFFFFF
+    k = e[0]
+    if k == "k":
+        return e[1] & M
+    if k == "leaf":
+        return env[e[1]] & M
+    a, b = _ev(e[2], env), _ev(e[3], env)
+    op = e[1]
+    if op == "add":
+        return (a + b) & M
+    if op == "sub":
+        return (a - b) & M
+    if op == "shl":
+        return (a << (b & 31)) & M
+    if op == "shr_u":
+        return a >> (b & 31)
+    if op == "gt_u":
+        return int(a > b)
+    if op == "eq":
+        return int(a == b)
+    raise ValueError(op)
+
+
+def rule_alloc_grow(ck, facts):
+    R = "C03.alloc-grow"
+    ck.rule(R, "the run-time bump allocator emitted by the WASM generator grows the linear memory by at least the missing bytes before it commits the new allocation pointer: with end = pointer + size, the argument of memory.grow evaluated on the emitted instruction template satisfies pages * 65536 >= end - memory_bytes at the page boundaries, the growth is guarded by end > memory_bytes, a failed growth traps, and the committed pointer is end")
+    lang = facts.crate(roles.LANG)
+    fs = [f for f in lang.fns if f.short.endswith("WasmGenerator::emit_runtime_alloc")]
+    ck.require(R, len(fs) == 1, "anchor|emit_runtime_alloc", "WasmGenerator::emit_runtime_alloc not found")
+    if len(fs) != 1:
+        return
+    f = fs[0]
+    seq = _w_seq(facts, f)
+    if not seq:
+        ck.bad(R, "unanalysable|emit_runtime_alloc", "the instruction template of %s is no longer a single straight-line sequence" % f.short, f.where())
+        return
+    BIN = {"I32Add": "add", "I32Sub": "sub", "I32Shl": "shl", "I32ShrU": "shr_u", "I32GtU": "gt_u", "I32Eq": "eq"}
+    stack, locs, globs, ctl = [], {}, {}, []
+    grow = None
+    trap_conds = []
+    commit = None
+    try:
+        for name, ops, t in seq:
+            if name == "I32Const":
+                o = ops[0]
+                stack.append(("k", o[1]) if o[0] == "k" else ("leaf", "size"))
+            elif name == "LocalGet":
+                stack.append(locs.get(repr(ops[0]), ("leaf", "local?")))
+            elif name == "LocalSet":
+                locs[repr(ops[0])] = stack.pop()
+            elif name == "LocalTee":
+                locs[repr(ops[0])] = stack[-1]
+            elif name == "GlobalGet":
+                stack.append(globs.get(repr(ops[0]), ("leaf", "ptr")))
+            elif name == "GlobalSet":
+                globs[repr(ops[0])] = stack.pop()
+                commit = (globs[repr(ops[0])], list(ctl))
+            elif name == "MemorySize":
+                stack.append(("leaf", "pages"))
+            elif name in BIN:
+                b = stack.pop()
+                a = stack.pop()
+                stack.append(("bin", BIN[name], a, b))
+            elif name == "If":
+                ctl.append(stack.pop())
+            elif name == "End":
+                ctl.pop()
+            elif name == "MemoryGrow":
+                grow = (stack.pop(), list(ctl), t)
+                stack.append(("leaf", "grow_result"))
+            elif name == "Unreachable":
+                trap_conds.append(list(ctl))
+            else:
+                raise ValueError("instruction %s" % name)
+    except (IndexError, ValueError) as e:
+        ck.bad(R, "unanalysable|emit_runtime_alloc", "cannot interpret the allocator template: %s" % e, f.where())
+        return
+    ck.require(R, grow is not None, "grow|present", "emit_runtime_alloc no longer grows the memory", f.where())
+    if grow is None:
+        return
+    garg, gctl, gt = grow
+    ok = True
+    bad_case = None
+    for pages in (1, 65, 1000):
+        for deficit in (1, 2, 65535, 65536, 65537, 131071, 131072, 1 << 20):
+            for size in (8, 4096):
+                end = pages * 65536 + deficit
+                env = {"pages": pages, "size": size, "ptr": end - size}
+                try:
+                    guard = all(_ev(c, env) for c in gctl)
+                    g = _ev(garg, env)
+                except (KeyError, ValueError) as e:
+                    ck.bad(R, "unanalysable|grow-arg", "memory.grow argument uses %s" % e, f.where(gt))
+                    return
+                if not guard or g * 65536 < deficit:
+                    ok = False
+                    bad_case = bad_case or (pages, deficit, g, guard)
+    if ok:
+        ck.ok(R, "grow|covers-deficit", {"cases": 48})
+    else:
+        ck.bad(R, "grow|covers-deficit", "%s: with %d pages of memory and an allocation ending %d bytes past it the template %s: the allocation pointer is then committed beyond the end of the linear memory and the next store traps (out-of-bounds memory access inside dsp)" % (f.short, bad_case[0], bad_case[1], ("grows by only %d page(s)" % bad_case[2]) if bad_case[3] else "does not grow at all"), f.where(gt))
+    traps_on_fail = any(any(c[0] == "bin" and c[1] == "eq" and ("leaf", "grow_result") in (c[2], c[3]) for c in tc) for tc in trap_conds)
+    ck.require(R, traps_on_fail, "grow|failure-traps", "a failed memory.grow (-1) is no longer turned into a trap before the pointer is committed", f.where())
+    ck.require(R, commit is not None and not commit[1] and commit[0] == ("bin", "add", ("leaf", "ptr"), ("leaf", "size")), "commit|end", "the committed allocation pointer is not pointer + size on every path", f.where())
+
+
+# admission guards of the type checker whose predicate carries a run-time safety argument: (error variant, predicate
+# that must control its construction, why).  Confirmed by reading typing.rs; the predicate is the *deep* one.
+ADMISSION = [
+    ("NonPrimitiveInFeed", "types::Type::contains_function", "the `self` cell is zero-initialised and its content is cloned/closed as a closure handle when its type contains a function anywhere (tuple / record / union member), so a shallow test admits programs that use handle 0"),
+]
+
+
+def rule_admission(ck, facts):
+    from ..cfg import DefIndex
+    R = "C03.admission"
+    ck.rule(R, "each type-checker diagnostic that keeps unsafe programs out is raised under the deep type predicate its safety argument needs: the construction of the error is control-dependent on a call of that predicate (nearest dominating branches)")
+    lang = facts.crate(roles.LANG)
+    for variant, pred, why in ADMISSION:
+        sites = []
+        for f in lang.fns:
+            if "::compiler::typing" not in f.path or f.kind == "promoted" or roles.is_derived(f):
+                continue
+            for b, st in f.all_stmts():
+                if st[KIND] == "a" and st[5][0] == "agg" and st[5][1][0] == "adt" and st[5][1][3] == variant and st[5][1][1].endswith("::Error"):
+                    sites.append((f, b, st))
+        ck.require(R, len(sites) >= 1, "anchor|%s" % variant, "the type checker no longer raises %s anywhere: programs it kept out are now accepted (%s)" % (variant, why))
+        for f, b, st in sites:
+            dom = dominators(f)
+            di = DefIndex(f)
+            ds = sorted((d for d in dom.get(b, ()) if d != b and f.term(d)[KIND] == "switch"), key=lambda d: -len(dom[d]))
+            preds = []
+            for d in ds[:4]:
+                op = f.term(d)[4]
+                r = di.resolve(op) if op[0] in ("cp", "mv") else ("const", op)
+                if r[0] == "call":
+                    preds.append(callee(r[1]) or "?")
+                elif r[0] == "rv" and r[1][5][0] == "disc":
+                    preds.append("match")
+            key = "guard|%s|%s" % (variant, f.short.split("::")[-1])
+            if any(p.endswith(pred) for p in preds):
+                ck.ok(R, key, {"error": variant, "controlled_by": pred})
+            else:
+                ck.bad(R, key, "%s raises %s under %s instead of %s: %s" % (f.short, variant, [p.split("::")[-1] for p in preds if p != "match"] or "no predicate", pred.split("::")[-1], why), f.where(st))
+
+
 def run(ck, facts, tier):
     cg = CallGraph(facts, ["mimium_lang", "state_tree", "mimium_scheduler", "mimium_audiodriver"])
     R = "C03.belief"
@@ -236,6 +406,8 @@ def run(ck, facts, tier):
         c01_bounds.run(ck, facts, cg, anchors, tier, "C01", literal=False)
     rule_traps(ck, facts)
     rule_limits(ck, facts)
+    rule_admission(ck, facts)
+    rule_alloc_grow(ck, facts)
     c03_unsafe.run(ck, facts, cg, tier)
     ck.not_decided("absence of index/overflow/division panics (compiler-inserted asserts are counted in the evidence only)")
     ck.not_decided("termination of user programs; 'dsp yields exactly the declared number of words' (run-time stack discipline)")
